@@ -8,7 +8,7 @@ from ..cfg import NORMAL, Node, handler_classes
 from ..core import Ctx
 from ..flow import ALL, find_path, names_in
 from ..model import AnalysisError, FunctionInfo, dotted, norm_text
-from .common import (facts_at, pure_guard, judged_in_callers, walk_all, str_consts, owner_tops, nonnull_inline_return_edges, cleanup_in_reraising_handler, edge_target, guarded_names, handler_exits, handler_key, handler_nodes, in_handler, kwarg,
+from .common import (facts_at, eval3, effective_returns, resolve_value, pure_guard, judged_in_callers, walk_all, str_consts, owner_tops, nonnull_inline_return_edges, cleanup_in_reraising_handler, edge_target, guarded_names, handler_exits, handler_key, handler_nodes, in_handler, kwarg,
                      path_arg, reachable_from)
 
 EXPLANATION = (
@@ -66,6 +66,7 @@ def check(ctx: Ctx) -> None:
     r5(ctx)
     row_sources_sanctioned(ctx)
     parsers_keep_every_entry(ctx)
+    hashers_hash_everything(ctx)
 
 
 ROW_SOURCE_OWNERS: Dict[str, str] = {
@@ -172,6 +173,98 @@ def parsers_keep_every_entry(ctx: Ctx, rid: str = "C14.R7") -> None:
                     "files as unreachable"), witness=ctx.path_witness(f, wit), text=f"{cname}@{n_sites}")
         if n_sites < 2:
             raise AnalysisError(f"only {n_sites} decoding site(s) of {cname} found in {q}")
+
+
+def hashers_hash_everything(ctx: Ctx, rid: str = "C14.R8") -> None:
+    ctx.rule(rid, "the checksum functions hash every byte: each returns hexdigest() of a hasher that was fed the whole input - "
+             "update(data), or in the chunked readers every non-empty chunk reaches update() and the loop ends only on an empty "
+             "read; the verify functions return the equality of computed and expected checksum (a writer-side hash of nothing "
+             "makes every file 'verify' on S3 while corruption goes unnoticed)", 5)
+    ic = ctx.prog.cls("integrity.IntegrityChecker")
+    for name in ("compute_checksum", "compute_checksum_from_stream", "compute_file_checksum"):
+        f = ic.methods.get(name)
+        if f is None:
+            raise AnalysisError(f"IntegrityChecker.{name} vanished")
+        g = ctx.cfg(f)
+        sl = ctx.slicer(f)
+        ups = [n for n in g.calls() if n.id in g.reachable() and isinstance(n.ast, ast.Call) and isinstance(n.ast.func, ast.Attribute) and n.ast.func.attr == "update"
+               and any(isinstance(c, ast.Call) and (dotted(c.func) or "").startswith("hashlib.") for c in sl.origins(n.ast.func.value, n.id)["calls"])]
+        hexes = [n for n in g.calls() if isinstance(n.ast, ast.Call) and isinstance(n.ast.func, ast.Attribute) and n.ast.func.attr == "hexdigest"]
+        rets = [r for r in g.nodes if r.kind == "return" and r.id in g.reachable() and r.ast is not None and r.ast.value is not None]  # type: ignore[union-attr]
+        ret_ok = bool(rets) and bool(hexes) and all(any(h.ast in sl.origins(r.ast.value, r.id)["calls"] or h.ast is r.ast.value for h in hexes) for r in rets)  # type: ignore[union-attr]
+        loops = [l for l in g.nodes if l.kind in ("loop", "loop_head") and l.id in g.reachable()]
+        ok, why = bool(ups) and ret_ok, "update(...) feeds the hasher and hexdigest() is returned"
+        if not ups:
+            why = "the hasher is never fed: every input has the checksum of the empty string"
+        elif not ret_ok:
+            why = "the returned value is not the hasher's hexdigest()"
+        if ok and not loops:
+            dom = ctx.dom(f, NORMAL)
+            if not all(any(u.id in dom[h.id] for u in ups) for h in hexes):
+                ok, why = False, "hexdigest() can be reached without update()"
+            pn = next((p.name for p in f.params if p.name not in ("self", "cls", "algorithm")), None)
+            if ok and pn is not None and not any(pn in names_in(u.ast.args[0]) for u in ups if isinstance(u.ast, ast.Call) and u.ast.args):
+                ok, why = False, f"update() is not given the `{pn}` argument"
+        for lp in loops if ok else []:
+            reads = [n for n in g.nodes if n.kind == "stmt" and isinstance(n.ast, ast.Assign) and isinstance(n.ast.value, ast.Call)
+                     and isinstance(n.ast.value.func, ast.Attribute) and n.ast.value.func.attr == "read" and isinstance(n.ast.targets[0], ast.Name)
+                     and any(fr.kind == "loop" and fr.node is lp.ast for fr in n.frames)]
+            if not reads:
+                continue
+            chunk = reads[0].ast.targets[0].id  # type: ignore[union-attr]
+
+            def scen(x: ast.AST, chunk: str = chunk) -> Optional[bool]:
+                return True if isinstance(x, ast.Name) and x.id == chunk else None  # scenario: the read returned data
+
+            def edge_ok(s_: int, d_: int, l_: str) -> bool:
+                n_ = g.nodes[s_]
+                if n_.kind == "branch" and n_.ast is not None and l_ in ("true", "false"):
+                    v_ = eval3(n_.ast, scen)
+                    if v_ is not None:
+                        return l_ == ("true" if v_ else "false")
+                return True
+
+            in_loop = {n.id for n in g.nodes if any(fr.kind == "loop" and fr.node is lp.ast for fr in n.frames)}
+            outside = [n.id for n in g.nodes if n.id not in in_loop and n.id != lp.id and n.kind not in ("entry",)]
+            starts = [d for d, l in g.succ[reads[0].id] if l in NORMAL]
+            w = None
+            for st in starts:
+                w = w or find_path(g, st, [lp.id] + outside, avoid=[u.id for u in ups], labels=NORMAL | {"back"}, edge_ok=edge_ok)
+            if w is not None:
+                ok, why = False, "a non-empty chunk can leave the iteration (or the loop) without reaching update()"
+            # ... and an empty read ends the loop (no endless loop / no early stop is the scenario above)
+        ctx.ob(rid, f, f"{name} hashes its whole input", ups[0] if ups else None, ok, why, text=name)
+    for name in ("verify_checksum", "verify_stream_checksum"):
+        f = ic.methods.get(name)
+        if f is None:
+            raise AnalysisError(f"IntegrityChecker.{name} vanished")
+        g = ctx.cfg(f)
+        ok = True
+        seen_cmp = False
+        for r, v in effective_returns(ctx, f):
+            for src, at in resolve_value(ctx, f, v, r.id):
+                if isinstance(src, ast.Compare) and len(src.ops) == 1 and isinstance(src.ops[0], ast.Eq):
+                    org = ctx.slicer(f).origins(src, at)
+                    seen_cmp = seen_cmp or (any(isinstance(c, ast.Call) and (dotted(c.func) or "").split(".")[-1].startswith("compute_checksum") for c in org["calls"])
+                                            and any("expected" in p for p in org["params"]))
+                elif isinstance(src, ast.Constant) and src.value is False:
+                    pass
+                elif isinstance(src, ast.Constant) and src.value is True:
+                    # `if computed == expected: return True`: the equality is a fact on arrival
+                    eqs = [e for pol, e, _a in facts_at(ctx, f, g.nodes[at]) if pol == "true" and isinstance(e, ast.Compare)
+                           and len(e.ops) == 1 and isinstance(e.ops[0], ast.Eq)]
+                    hit = False
+                    for e in eqs:
+                        org = ctx.slicer(f).origins(e, at)
+                        if any(isinstance(c, ast.Call) and (dotted(c.func) or "").split(".")[-1].startswith("compute_checksum") for c in org["calls"]) \
+                                and any("expected" in p for p in org["params"]):
+                            hit = True
+                    seen_cmp = seen_cmp or hit
+                    ok = ok and hit
+                else:
+                    ok = False
+        ctx.ob(rid, f, f"{name} returns computed == expected", None, ok and seen_cmp,
+               "the verdict is the equality of the computed and the expected checksum", text=name)
 
 
 def read_path_functions(ctx: Ctx, roots: Optional[List[FunctionInfo]] = None, modules: Tuple[str, ...] = READ_MODULES) -> List[FunctionInfo]:
